@@ -160,6 +160,10 @@ func runC05(c *Ctx) {
 		wr, rd := registryAgreement(c)
 		writerSnifferAgreement(c, s, wr, rd)
 	}
+	// … for every document a reader parses, not only the first: a detection result remembered in
+	// the reader would stand in for the next document's explicit format
+	operandsUntouchedIn(c, "detection-leaves-reader-unchanged", "the parse entry points and what they call (format detection included) do not write memory reachable from the reader: what was detected for one document is not carried to the next", map[string]bool{"receiver": true},
+		"reader.(*Reader).ParseStreamWithOptions", "reader.(*Reader).ParseFileWithOptions")
 }
 
 // counterRule: C05-D1 (seed) and D2.
@@ -489,7 +493,11 @@ func idAlphabet(c *Ctx) {
 	// the pattern is whatever *regexp.Regexp package variable NewNodeIdentifier escapes with
 	// (receiver of its ReplaceAll* call) — found by use, not by name
 	reVar := ""
-	if d := c.decl(R, "sbom.NewNodeIdentifier"); d != nil {
+	genDecls := pkgFilter(c.reachDecls(R, "sbom.NewNodeIdentifier"), "sbom.")
+	for _, d := range genDecls {
+		if d.name != "sbom.NewNodeIdentifier" && (d.obj == nil || ast.IsExported(d.obj.Name())) {
+			continue // only the generator and the unexported helpers it is split into
+		}
 		for _, cs := range callsIn(d.pkg, d.fd.Body) {
 			if strings.HasPrefix(cs.callee.Name(), "ReplaceAll") && strings.HasSuffix(cs.callee.FullName(), cs.callee.Name()) && strings.Contains(cs.callee.FullName(), "regexp.Regexp") {
 				if sel, ok := cs.call.Fun.(*ast.SelectorExpr); ok {
@@ -564,13 +572,17 @@ func idAlphabet(c *Ctx) {
 	c.check(len(leaks) == 0, R, "sbom.invalidIDCharsRe", c.P.Pos(pos), "pattern "+pat+" leaves only [A-Za-z0-9.-] unescaped",
 		fmt.Sprintf("the escape pattern %s leaves %v unescaped: generated identifiers can contain characters outside the identifier-safe alphabet", pat, leaks))
 	// the escape is applied to every seed: ReplaceAllStringFunc on the pattern inside the loop over prefixes
-	d := c.decl(R, "sbom.NewNodeIdentifier")
-	if d != nil {
+	if d := c.decl(R, "sbom.NewNodeIdentifier"); d != nil {
 		applied := false
-		for _, cs := range callsIn(d.pkg, d.fd.Body) {
-			if strings.HasPrefix(cs.callee.Name(), "ReplaceAll") {
-				if sel, ok := cs.call.Fun.(*ast.SelectorExpr); ok && types.ExprString(sel.X) == reVar {
-					applied = true
+		for _, gd := range genDecls {
+			if gd.name != "sbom.NewNodeIdentifier" && (gd.obj == nil || ast.IsExported(gd.obj.Name())) {
+				continue
+			}
+			for _, cs := range callsIn(gd.pkg, gd.fd.Body) {
+				if strings.HasPrefix(cs.callee.Name(), "ReplaceAll") {
+					if sel, ok := cs.call.Fun.(*ast.SelectorExpr); ok && types.ExprString(sel.X) == reVar {
+						applied = true
+					}
 				}
 			}
 		}
